@@ -230,7 +230,8 @@ pub fn run_fuzz(prop: &str, target: &str, tier: Tier, seed: u64, root: &Path, tm
         out.inconclusive.push("libFuzzer: no execution statistics found in the log (campaign did not run?)".into());
     }
     out.summary.push(json!({"tool": "libFuzzer+ASan", "target": target, "seed_inputs": seeds, "corpus_after": corpus_after, "executions_reported": execs, "coverage_edges": cov,
-        "artifacts": arts.len(), "artifacts_confirmed_by_plain_harness": confirmed, "artifacts_not_confirmed_(ignored)": unconfirmed, "seconds": secs, "wall_s": t0.elapsed().as_secs_f64()}));
+        "artifacts": arts.len(), "artifact_names": arts.iter().take(10).map(|a| a.file_name().map(|n| n.to_string_lossy().to_string()).unwrap_or_default()).collect::<Vec<_>>(),
+        "artifacts_confirmed_by_plain_harness": confirmed, "artifacts_not_confirmed_(ignored)": unconfirmed, "seconds": secs, "wall_s": t0.elapsed().as_secs_f64()}));
     out
 }
 
